@@ -5,6 +5,8 @@ package govc
 import (
 	"fmt"
 	"go/types"
+
+	"golang.org/x/tools/go/ssa"
 	"strings"
 )
 
@@ -13,11 +15,11 @@ type modField struct {
 	obj    *Term
 	src    string
 	// each-form: obj ranges over the payload pointers of the elements of a slice of interfaces
-	each     bool
-	eachVal  *Term // component (Array Int (Array Int Int)) of payloads at evaluation time
-	eachArr  *Term
-	eachOff  *Term
-	eachLen  *Term
+	each    bool
+	eachVal *Term // component (Array Int (Array Int Int)) of payloads at evaluation time
+	eachArr *Term
+	eachOff *Term
+	eachLen *Term
 }
 
 type modElems struct {
@@ -125,6 +127,20 @@ func (x *Exec) evalModSet(sp *FuncSpec, env *SpecEnv) *ModSet {
 			ms.Globals["G!ghost."+name] = true
 			for _, l := range x.Sh.Leaves(T) {
 				ms.keys[compKeyGlobal("ghost."+name, l.Suffix)] = ArrSort(SInt, l.Sort)
+			}
+		case "global":
+			name := ml.E.(EIdent).Name
+			var g *ssa.Global
+			if env.Pkg != nil {
+				g, _ = env.Pkg.Members[name].(*ssa.Global)
+			}
+			if g == nil {
+				panic(fmt.Errorf("modifies %s: not a package-level variable", ml.Src))
+			}
+			gt := g.Type().(*types.Pointer).Elem()
+			ms.Globals["G!"+globalName(g)] = true
+			for _, l := range x.Sh.Leaves(gt) {
+				ms.keys[compKeyGlobal(globalName(g), l.Suffix)] = ArrSort(SInt, l.Sort)
 			}
 		case "eachfield":
 			base := env.eval(ml.E)
